@@ -178,6 +178,9 @@ pub fn run(ctx: &Ctx) -> i32 {
         "-printf 'x  y\\n' -fprint 'o  p'".into(),
         "-printf 'x y\\n' -fprint 'o p'".into(),
         "-true".into(),
+        "".into(),
+        "  ".into(),
+        "-depth".into(),
         "-true -o".into(),
         "-uid x".into(),
         nest(8),
@@ -272,6 +275,81 @@ pub fn run(ctx: &Ctx) -> i32 {
                 ));
             }
             Err(_) => acc.violate(Violation::new("C15:call-failed", "the parse-history thread died".to_string(), json!({"kind": "parse-wear", "n": 200}))),
+        }
+    }
+    // many rejected inputs must not wear anything out either: 600 repetitions of each kind of
+    // rejection, then the probes again
+    {
+        let rejected: Vec<String> = vec!["( )".into(), "( -name a -o )".into(), "(".into(), ")".into(), "-uid x".into(), "-name".into(), "( ( ( -true".into(), "-perm u=r,g+q".into(), "-printf '%z'".into()];
+        let probes: Vec<String> = vec!["( -name a )".into(), "( ( -true ) )".into(), "-perm g=w".into(), "-printf '%p'".into(), "".into(), "-uid 5".into(), nest(40)];
+        let res = std::thread::Builder::new()
+            .stack_size(256 << 20)
+            .spawn(move || {
+                let before: Vec<String> = probes.iter().map(|s| format!("{:?}", crate::subject::parse_spec(s))).collect();
+                let mut out = vec![];
+                for r in &rejected {
+                    for _ in 0..600 {
+                        let _ = crate::subject::parse_spec(r);
+                    }
+                    let after: Vec<String> = probes.iter().map(|s| format!("{:?}", crate::subject::parse_spec(s))).collect();
+                    for (k, (b, a)) in before.iter().zip(after.iter()).enumerate() {
+                        if a != b {
+                            out.push((r.clone(), probes[k].clone(), a.clone(), b.clone()));
+                        }
+                    }
+                }
+                out
+            })
+            .unwrap()
+            .join()
+            .unwrap_or_default();
+        acc.states += 9 * 7;
+        acc.transitions += 9 * 600;
+        for (r, p, a, b) in res {
+            acc.violate(Violation::new(
+                "C15:parse-result-depends-on-history",
+                format!("after 600 parses of the rejected input {r:?}, parse({:?}) gives {} instead of {}", short(&p), short(&a), short(&b)),
+                json!({"kind": "parse-wear", "rejected": r, "probe": p}),
+            ));
+        }
+    }
+    // equal trees compile to equal programs whether or not their sub-trees are shared nodes
+    {
+        use lipe_find_parser::ast::{Expression, Operator};
+        use std::rc::Rc;
+        let leaves = ["-name x", "-uid 5 -o -name y", "! -type f", "-size +1k -perm -600"];
+        for l in leaves {
+            if let P::Ok(o, e) = parse_real(l) {
+                for mk in [0u8, 1, 2] {
+                    let op = |a: Expression, b: Expression| {
+                        Expression::Operator(Rc::new(match mk {
+                            0 => Operator::And(a, b),
+                            1 => Operator::Or(a, b),
+                            _ => Operator::List(a, b),
+                        }))
+                    };
+                    let shared = op(e.clone(), e.clone());
+                    let rebuilt = match (parse_real(l), parse_real(l)) {
+                        (P::Ok(_, a), P::Ok(_, b)) => op(a, b),
+                        _ => continue,
+                    };
+                    acc.states += 1;
+                    acc.transitions += 2;
+                    let (a, b) = (compile_render(&shared, &o, "/dev"), compile_render(&rebuilt, &o, "/dev"));
+                    let same = match (&a, &b) {
+                        (C::Ok(x), C::Ok(y)) => normalise_clock(&x.0) == normalise_clock(&y.0) && x.1 == y.1,
+                        (C::Err(x), C::Err(y)) => x == y,
+                        _ => false,
+                    };
+                    if !same {
+                        acc.violate(Violation::new(
+                            "C15:equal-trees-compile-differently",
+                            format!("two equal trees over {l:?} (one with a shared sub-tree node, one rebuilt) compile to different programs"),
+                            json!({"kind": "shared-subtree", "leaf": l, "operator": mk}),
+                        ));
+                    }
+                }
+            }
         }
     }
     // the file system is not an input: compiling before and after the named files exist, and
